@@ -8,6 +8,7 @@
 -/
 import SmoothModel
 import Driver.Ops
+import Driver.Audit
 
 open Scalar Lin
 
@@ -23,8 +24,8 @@ def processLine (line : String) : String :=
       match Drv.runOp (α := Float32) op grp (args.toArray.map Drv.Bits.ofHex) with
       | .ok out => " ".intercalate (out.toList.map Drv.Bits.toHex)
       | .error e => "ERR " ++ e
-    else if prec == "rat" then
-      Drv.runAudit op grp args.toArray
+    else if prec == "f64a" || prec == "f32a" then
+      Drv.runAudit op grp prec args.toArray
     else "ERR bad-prec"
   | _ => "ERR bad-line"
 
